@@ -352,6 +352,9 @@ def run_case(case):
     if case['kind'] == 'multiband':
         from checks import common
         return common.c01_multiband_case(case)
+    if case['kind'] == 'roundtrip':
+        from checks import common
+        return common.c01_roundtrip_case(case)
     if case['kind'] == 'receiver':
         from checks import common
         return common.c01_receiver_case(case)
@@ -374,6 +377,7 @@ def main(rep, tier, seed):
             cases.append({'kind': 'bfs', 'init': name, 'prefix': [ev], 'depth': depth - 1})
     prop_cases = common.propagation_cases(tier, seed, purpose='C01')
     prop_cases += [dict(c, kind='receiver') for c in prop_cases if c['sim'] is None and c['topo'] in ('p2_2spans', 'p3_mixed')]
+    prop_cases += [dict(c, kind='roundtrip') for c in prop_cases if c.get('kind') != 'receiver' and c['sim'] is None]
     prop_cases += [dict(kind='multiband', net=n, variant=v) for n in ('CL', 'CLS', 'mixed_C_then_CL') for v in range(3)]
     results, stats = engine.run_pool('checks.c01', cases + prop_cases, horizon=3000, chunksize=1)
     rep.absorb(results)
